@@ -208,6 +208,10 @@ func (m *MdnsManager) Start(cb api.MdnsReportInterface) error {
 		return err
 	}
 
+	// the provider may report services right away, so the callback has to be known
+	// before it is started, otherwise these services would never be reported
+	m.setReportCallback(cb)
+
 	switch m.providerSelection {
 	case MdnsProviderSelectionAll:
 		// First try avahi, if not available use zerconf
@@ -237,8 +241,6 @@ func (m *MdnsManager) Start(cb api.MdnsReportInterface) error {
 	if err := m.AnnounceMdnsEntry(); err != nil {
 		return err
 	}
-
-	m.setReportCallback(cb)
 
 	// catch signals
 	go func() {
